@@ -57,6 +57,15 @@ SizeExpect(r, n) ==
 SizeCases ==
     UNION {{LatCase(r.c, r.keys, SizeNode(r.kind, n), SizeExpect(r, n), "limit:" \o r.name) : n \in Sizes(r.limit)} : r \in SizeRows}
 
+\* the limit of a text member counts BYTES, wherever the characters fall: texts of 2-, 3- and 4-byte
+\* characters whose byte length runs across the limit at every alignment
+MbText(w, n) == LET ch == EncodeScalar(CASE w = 2 -> 233 [] w = 3 -> 8364 [] w = 4 -> 128512)
+                    k  == n \div w
+                IN  AsciiPattern(9, n - k * w) \o [i \in 1..(k * w) |-> ch[((i - 1) % w) + 1]]
+MultiByteSizeCases ==
+    UNION {{LatCase(r.c, r.keys, CText(MbText(w, n)), SizeExpect(r, n), "limit-multibyte:" \o r.name) :
+               w \in {2, 3, 4}, n \in (r.limit - 4)..(r.limit + 5)} : r \in {x \in SizeRows : x.kind = "text"}}
+
 \* ----- unbounded zero-copy borrows: accepted whatever the length, up to the message limit
 UnboundedRows == {
     [c |-> 1,  keys |-> <<CU(1)>>, kind |-> "bytes", name |-> "mc.clientDataHash"],
@@ -137,7 +146,7 @@ ContentCases ==
     UNION {{LatCase(r.c, r.keys, IF r.kind = "text" THEN CText(w) ELSE CBytes(w), "accept", "content:" \o r.name) : w \in ContentWords(r.limit)}
            : r \in {x \in SizeRows : x.kind \in {"text", "bytes"} /\ ~x.exact}}
 
-MC_Cases == SizeCases \cup UnboundedCases \cup IntCases \cup ParamTypeCases \cup ParamAlgCases \cup ContentCases
+MC_Cases == SizeCases \cup MultiByteSizeCases \cup UnboundedCases \cup IntCases \cup ParamTypeCases \cup ParamAlgCases \cup ContentCases
 
 (***************************************************************************)
 (* C12 on the model: the decoder's decision agrees with the limits above   *)
